@@ -63,12 +63,17 @@ def index_files():
     return seen
 
 
-def choose_maps(tier, rnd, always=('837.4010.X098.A1.xml', '835.4010.X091.A1.xml', '835.5010.X221.A1.xml', '834.5010.X220.A1.xml', '999.5010.xml'), extra=1):
-    files = [f for f in index_files() if loadable(f)]
+def choose_maps(tier, rnd, always=('837.4010.X098.A1.xml', '835.4010.X091.A1.xml', '835.5010.X221.A1.xml', '834.5010.X220.A1.xml', '999.5010.xml', '997.4010.xml'), extra=1, wide=False):
+    """quick: the big 837P map, a fixed set of small ones and a seed-chosen one; wide=True: every small map (<= 120 nodes) as well"""
+    files = [f for f in index_files() if loadable(f) and not f.startswith('x12.control')]
     if tier != 'quick':
         return files
     pick = [f for f in always if f in files]
     rest = [f for f in files if f not in pick]
+    if wide:
+        small = [f for f in rest if len(export_map(f)[1]['nodes']) <= 120]
+        pick += small
+        rest = [f for f in rest if f not in small]
     pick += rnd.sample(rest, min(extra, len(rest)))
     return pick
 
@@ -352,6 +357,8 @@ class Concretiser(object):
             self.gs_in_isa = 0
             setv(12, self.isa_id)
             setv(15, self.ct)
+            if self.entry:
+                setv(11, self.entry['icvn'])      # the version under which the index lists this map
             if len(vals) > 11 and vals[11] == '00501':
                 setv(10, self.rep)
             elif len(vals) > 10:
